@@ -357,14 +357,7 @@ def t11_hmtx(run, fx):
         run.anchor_missing(rule, "<woff2::Woff2HmtxTable as ReadBinaryDep>::read_dep")
 
 
-def t11_xmin(run, fx):
-    rule = "T11-XMIN"
-    run.rule(rule, "hmtx reconstruction (WOFF2 5.4: an omitted lsb is the glyph's xMin): for a glyph that is still raw bytes, xMin is read from "
-                   "the glyph header after numberOfContours - Woff2HmtxTable::x_min reads an i16 from the same cursor before it reads the BoundingBox; for a "
-                   "parsed glyph it is the stored bounding box - nothing that computes a box from points is reachable from x_min")
-    b = fx.body("woff2::Woff2HmtxTable::x_min")
-    if b is None:
-        return run.anchor_missing(rule, "woff2::Woff2HmtxTable::x_min")
+def _xmin_reads(run, rule, b):
     import sym
     prov = sym.Prov(b)
     n = 0
@@ -384,6 +377,22 @@ def t11_xmin(run, fx):
             run.ok(rule, "x_min: read_i16be (numberOfContours), then the BoundingBox, on the same cursor")
         else:
             run.fail(rule, "xmin:header", "x_min reads the BoundingBox without first consuming numberOfContours on the same cursor", b.loc(t))
+    return n
+
+
+def t11_xmin(run, fx):
+    rule = "T11-XMIN"
+    run.rule(rule, "hmtx reconstruction (WOFF2 5.4: an omitted lsb is the glyph's xMin): for a glyph that is still raw bytes, xMin is read from "
+                   "the glyph header after numberOfContours - Woff2HmtxTable::x_min reads an i16 from the same cursor before it reads the BoundingBox; for a "
+                   "parsed glyph it is the stored bounding box - nothing that computes a box from points is reachable from x_min")
+    b = fx.body("woff2::Woff2HmtxTable::x_min")
+    if b is None:
+        return run.anchor_missing(rule, "woff2::Woff2HmtxTable::x_min")
+    import sym
+    n = 0
+    # x_min and the private helpers of woff2.rs it hands the raw glyph bytes to are read as one group
+    for hb in [y for x in fx.with_helpers(b, "woff2::") for y in fx.family(x)]:
+        n += _xmin_reads(run, rule, hb)
     if n == 0:
         run.anchor_missing(rule, "BoundingBox read in x_min")
     # a glyph that was already parsed: xMin is the bounding box the font stores for it (the transformed glyf stream may carry an explicit box
